@@ -33,6 +33,31 @@ CLAIMS['C18'] = dict(
     design_ref='DESIGN.md 3/C18',
     note='trusted base: clang 14 front end, jpfacts, the overlap rules of jpv/alias.py; assembly leaves are assumed alias-safe until R-ASM summaries exist; optimiser exploitation of __restrict not modelled')
 
+CLAIMS['C01'] = dict(
+    technique='static analysis: control-dependence (edge-dominance) rule on the CFG of the multi-pair Miller loop; constant relations checked against an independent big-integer pairing',
+    category='other',
+    text='Partial claim (identity clause + constants only): every line evaluation / doubling / addition step of the Miller loop is control-dependent on the non-identity edges of both members of the pair feeding it, for affine and prepared pairs in all three phases, and the accumulator starts at one; bls_x facts and (thorough) the exported generator pairing equal the mathematically defined values. The pairing value for non-identity inputs, bilinearity and order are NOT decided.',
+    design_ref='DESIGN.md 3/C01',
+    note='necessary-condition check only; trusted base clang front end + jpv CFG builder; x is the trusted parameter')
+CLAIMS['C02'] = dict(
+    technique='static analysis: relations between clang-evaluated constant initializers (located by role) checked with independent big-integer arithmetic; edge-dominance rules for the zero special cases',
+    category='other',
+    text='Partial claim: all Montgomery/field constants, square-root constants, masks and the zero special cases (inverse(0)=0, negate(0)=0, sqrt(0)) are decided for 64- and 32-bit-word configurations; exactness of the add/sub/mul/reduce routines for all operands is NOT decided (value-level).',
+    design_ref='DESIGN.md 3/C02',
+    note='trusted root: curve parameter x; oracle jpv/bls.py shares no code with the library')
+CLAIMS['C04'] = dict(
+    technique='static analysis: every Frobenius table entry and tower constant compared with independently computed values; interval analysis of table indices',
+    category='other',
+    text='Partial claim: Frobenius coefficient tables (all entries), their index ranges, tower one/zero/-1 constants and Fq2 square-root exponents are decided; the multiplication/squaring/inversion formulas are NOT decided (value-level).',
+    design_ref='DESIGN.md 3/C04',
+    note='trusted root: x and the defining polynomials u^2+1, v^3-(u+1), w^2-v')
+CLAIMS['C05'] = dict(
+    technique='static analysis: edge-dominance (must-pass) rules on the CFG of every instantiation of the addition and conversion routines, with guard exits identified by their effect',
+    category='other',
+    text='Partial claim: the exceptional cases (either operand the identity, equal operands given to addition, identity in conversions) are handled by guards that dominate the general formulas, with the right effect, in both add overloads for G1 and G2; the formulas themselves and on-curve invariance are NOT decided.',
+    design_ref='DESIGN.md 3/C05',
+    note='necessary-condition check; each guard in the table carries its necessity argument')
+
 NA = {
  'C03': 'bit-equality of assembly and C++ back ends over 2^768 inputs is a numerical equivalence: needs execution or a solver (other families); structural asm facts are decided under C17/C18/C20',
  'C13': 'acceptance/rejection is the value of a pairing-product equation; no structural clause beyond the sign/verify delegation decided under C14',
